@@ -659,6 +659,27 @@ def dao_container(prog: Program) -> RuleResult:
     return r
 
 
+def dao_init_in_place(prog: Program) -> RuleResult:
+    """from_dao allocates the object first and memoises it, so that whatever is reconstructed meanwhile can refer to it; the constructor then
+    runs *on that object*. A constructor may publish `self` (a container that sets item.container = self in __post_init__): run on a second
+    instance whose state is copied over, it publishes the twin, and the reconstructed graph has two objects where the original has one."""
+    r = RuleResult("DAO-INIT", "from_dao runs the constructor on the memoised instance itself", floor=1)
+    dao = prog.cls(DAO + ".DataAccessObject")
+    f = prog.lookup(dao.qual, "_call_initializer_or_assign")
+    if f is None or len(f.params) < 2:
+        raise AnalysisError("DAO-INIT: DataAccessObject._call_initializer_or_assign(self, result, init_args) vanished")
+    res = f.params[1]
+    inits = [c for c in calls_in(f.node) if isinstance(c.func, ast.Attribute) and c.func.attr == "__init__" and (
+        (isinstance(c.func.value, ast.Name) and c.func.value.id == res) or (c.args and isinstance(c.args[0], ast.Name) and c.args[0].id == res))]
+    twins = [c for c in calls_in(f.node) if (isinstance(c.func, ast.Call) and call_name(c.func) in ("type", "original_class") )
+             or (isinstance(c.func, ast.Attribute) and c.func.attr == "__class__") or call_name(c) in ("copy", "deepcopy", "replace")]
+    r.check(bool(inits) and not twins, "DataAccessObject._call_initializer_or_assign#on-the-memoised-instance", site(f, (twins or inits or [f.node])[0]), src((twins or inits)[0])[:80] if (twins or inits) else "",
+            "result.__init__(**init_args) on the allocated object, no second instance",
+            f"{src(twins[0])[:60] if twins else 'the constructor is not called on the allocated object'}: the constructor runs on another instance than the memoised one - a constructor that "
+            "publishes self (ContainerGeneration.__post_init__: item.container = self) hands out the twin, and the items of the reconstructed container point to a second container")
+    return r
+
+
 def _opt_truth(prog):
     # the conversion states are passed down optionally; `state or State()` must only ever replace None
     from .opttruth import opt_truth
@@ -681,4 +702,4 @@ def _exact_dao(prog):
 
 
 def run(prog: Program, tier: str) -> List[RuleResult]:
-    return [idkey(prog), dao_order(prog), dao_direction(prog), dao_collect(prog), dao_window(prog), dao_value_truth(prog), dao_fresh(prog), _opt_truth(prog), _shared_default(prog), dao_args(prog), dao_kwargs(prog), dao_partition(prog), _exact_dao(prog), dao_container(prog)]
+    return [idkey(prog), dao_order(prog), dao_direction(prog), dao_collect(prog), dao_window(prog), dao_value_truth(prog), dao_fresh(prog), _opt_truth(prog), _shared_default(prog), dao_args(prog), dao_kwargs(prog), dao_partition(prog), _exact_dao(prog), dao_container(prog), dao_init_in_place(prog)]
